@@ -6,10 +6,10 @@
    indistinguishable one changes nothing.
    (iii) in every textual context (Proofs/Split.v, Proofs/SameParse.v): X+ / X-or-later, and X / X-only when X-only
    is not itself listed, give the same tokens, hence the same parse outcome, hence the same API results.
-   C08_partial: for the listed -only ids (the GNU families) X and X-only are different, indistinguishable nodes:
-   interchangeability is proved for single terms and at tree level (ii); the step from a compound expression
-   string to its tree with that one leaf replaced is carried by the correspondence check. *)
-From Spdx Require Import Props.Shipped Spec.Spellings Spec.Units WF.Spellings WF.Units Proofs.Congruence Proofs.BytesFacts Proofs.MatchProof Proofs.Split Proofs.SameParse Proofs.Laws Proofs.ApiFacts.
+   (iv) for the listed -only ids (the GNU families) X and X-only are different ids at one table position: the
+   matcher cannot tell them apart (Proofs/OnlyPairs.v, from C02 + chk_only_pairs) and the parser is parametric in id
+   texts (Proofs/ParseRel.v), so the replacement at any term position of any text keeps validity and verdict. *)
+From Spdx Require Import Props.Shipped Spec.Spellings Spec.Units WF.Spellings WF.Units Proofs.Congruence Proofs.BytesFacts Proofs.MatchProof Proofs.Split Proofs.SameParse Proofs.Laws Proofs.ApiFacts Proofs.OnlyPairs Proofs.ParseRel.
 Local Open Scope list_scope.
 
 Theorem C08_active_spellings x : In x (active T0) ->
@@ -47,6 +47,21 @@ Theorem C08_only_unlisted x p q :
   same_parse T0 (p ++ x ++ q) (p ++ (x ++ k_only) ++ q).
 Proof. exact (only_unlisted_anywhere T0 HT0 chk_unit_tokens_shipped x p q). Qed.
 
+(* X and X-only where X-only IS a listed id (the GNU families): different ids at one table position.  At any term
+   position of any text - followed by nothing or by a non-id byte other than '+' (e.g. " WITH e", ")", " AND ...") -
+   replacing one by the other changes neither validity nor the result of Satisfies, as expression or allowed entry. *)
+Theorem C08_only_listed x y p q A : only_pair T0 x y -> context_ok x p q ->
+  validb T0 (p ++ x ++ q) = validb T0 (p ++ y ++ q) /\
+  obs (satisfies T0 (p ++ x ++ q) A) = obs (satisfies T0 (p ++ y ++ q) A).
+Proof.
+  intros H C. split.
+  - exact (only_listed_valid T0 HT0 chk_only_pairs_shipped x y p q H C).
+  - exact (only_listed_expression T0 HT0 Hnr0 chk_fold_unique_shipped chk_orlater_base_ranged_shipped chk_only_pairs_shipped x y p q A H C).
+Qed.
+Theorem C08_only_listed_allowed x y q e A1 A2 : only_pair T0 x y -> context_ok x [] q ->
+  obs (satisfies T0 e (A1 ++ (x ++ q) :: A2)) = obs (satisfies T0 e (A1 ++ (y ++ q) :: A2)).
+Proof. exact (only_listed_allowed T0 HT0 Hnr0 chk_fold_unique_shipped chk_orlater_base_ranged_shipped chk_only_pairs_shipped x y q e A1 A2). Qed.
+
 Theorem C08_interchangeable s s' : same_parse T0 s s' ->
   validb T0 s = validb T0 s' /\
   (forall A, obs (satisfies T0 s A) = obs (satisfies T0 s' A)) /\
@@ -61,5 +76,5 @@ Example C08_example :
   /\ satisfies T0 (s2l "AGPL-1.0") [s2l "AGPL-1.0-only"] = Ok true /\ satisfies T0 (s2l "GPL-2.0") [s2l "GPL-2.0-only"] = Ok true.
 Proof. vm_compute. repeat split; reflexivity. Qed.
 
-Definition C08_theorems := (@C08_active_spellings, @C08_substitute_in_expression, @C08_substitute_in_allowed, @C08_shipped_lists, @C08_plus_orlater, @C08_only_unlisted, @C08_interchangeable).
+Definition C08_theorems := (@C08_active_spellings, @C08_substitute_in_expression, @C08_substitute_in_allowed, @C08_shipped_lists, @C08_plus_orlater, @C08_only_unlisted, @C08_interchangeable, @C08_only_listed, @C08_only_listed_allowed).
 Redirect "assumptions/C08" Print Assumptions C08_theorems.
